@@ -252,7 +252,8 @@ def populate_universe():
     plu = Plu("var_count", "Cardinal", [("One", Bloc(Lit("one "), Var("var_x"))), ("Few", Bloc(Var("var_count"), Lit(" few")))], Bloc(Var("var_count"), Lit(" other "), Var("var_x")))
     plu_ord = Plu("var_n", "Ordinal", [("Two", Var("var_x"))], Lit("th"))
     plu_zero = Plu("var_count", "Cardinal", [("Zero", Lit("zero form")), ("One", Bloc(Lit("one form "), Var("var_x")))], Bloc(Var("var_count"), Lit(" other form")))
-    vals = leafs + [("range", rng), ("range-without-fallback", rng_nofb), ("range-alternatives", rng_multi), ("plural", plu), ("plural-ordinal", plu_ord), ("plural-with-zero-form", plu_zero),
+    rng_n = Rng("var_n", "I32", [(Exact(0), Lit("none")), (FALLBACK, Bloc(Var("var_n"), Lit(" some "), Var("var_x")))])          # a range whose count was renamed `n`
+    vals = leafs + [("range", rng), ("range-renamed", rng_n), ("range-without-fallback", rng_nofb), ("range-alternatives", rng_multi), ("plural", plu), ("plural-ordinal", plu_ord), ("plural-with-zero-form", plu_zero),
                     ("range-in-component", Comp("comp_b", rng)), ("plural-in-reference", FkSet(plu))]
     argsets = [
         ("no-args", L()),
@@ -271,7 +272,7 @@ def populate_universe():
             for cl, c in counts:
                 out.append(("%s / %s" % (vl, cl), v, L(T(S("var_count"), c), T(S("var_x"), X))))
                 out.append(("%s / only %s" % (vl, cl), v, L(T(S("var_count"), c))))        # the count as the only argument
-            if vl == "plural-ordinal":
+            if vl in ("plural-ordinal", "range-renamed"):
                 # a plural whose count was renamed (`n`) by an earlier reference: it is `n` that fixes / renames it now
                 for cl, c in counts[:4] + counts[8:9]:
                     out.append(("%s / n:%s" % (vl, cl), v, L(T(S("var_n"), c), T(S("var_x"), X))))
